@@ -34,6 +34,7 @@ Explain(r, P, occ, ord, d, obs, exp) ==
   LET extra == obs \ exp
       missing == exp \ obs IN
   IF extra = {} /\ missing = {} THEN "ok"
+  ELSE IF \A x \in (extra \cup missing) : x \in {q.oid : q \in P.occs} /\ ShadowedByUntaken(P, OccOf(P, x)) THEN "UntakenDefinitionShadows"
   ELSE IF SeveralVars(P, d) THEN "RemovedSymbolKeepsDefinition"
   ELSE IF d \in ReassignedVars(P) THEN "VarReassignmentMovesDefinition"
   ELSE IF (extra \cup missing) \subseteq (DefOps(r) \cup LoopOps(r) \cup FileOps(r)) THEN SpecialName(r, extra \cup missing)
@@ -51,8 +52,11 @@ JudgeOcc(r, P, o) ==
       d == occ.node
       at == " at occurrence " \o ToString(o.oid) \o " (" \o occ.name \o " in " \o occ.file \o ")"
       U == {x.oid : x \in {y \in P.occs : y.node \in {-1, NoNode}}}       \* occurrences the model cannot resolve (untaken code, import quirks): unspecified
+      IndexOids == {x.oid : x \in {y \in P.occs : y.name = "index" /\ y.node = NoNode}}
       obsUses == {x.oid : x \in {y \in SeqSet(r.obs) : y.def = d /\ ~OccOf(P, y.oid).def}}
       defrow == IF d = NoNode \/ d = -1 \/ o.def = d THEN <<>>      \* -1: unresolvable name in an untaken branch (the build never evaluates it)
+                ELSE IF ShadowedByUntaken(P, occ) /\ o.def \in {u.oid : u \in UntakenDefs(P)}
+                  THEN <<V(r.id, "deviation", "UntakenDefinitionShadows", "go-to-definition leads to the definition " \o ToString(o.def) \o " inside an untaken branch, the build uses " \o ToString(d) \o at)>>
                 ELSE IF SeveralVars(P, d)
                   THEN <<V(r.id, "deviation", "RemovedSymbolKeepsDefinition", "go-to-definition leads to " \o ToString(o.def) \o ", the variable is defined at " \o ToString(d) \o at)>>
                 ELSE IF d \in ReassignedVars(P)
@@ -67,6 +71,12 @@ JudgeOcc(r, P, o) ==
                   THEN <<V(r.id, "deviation", "ImportedFileSpanShadowsSymbols", "go-to-definition leads to the file instead of " \o ToString(d) \o at)>>
                 ELSE <<V(r.id, "violation", "", "go-to-definition leads to " \o ToString(o.def) \o ", the scoping rules bind it to " \o ToString(d) \o at)>> IN
   defrow
+  (* the implicit loop symbol `index' has no definition site and is nobody's occurrence: an answer that relates it to another *)
+  (* symbol can only come from an analysis record that a re-used symbol index inherited                                      *)
+  \o (IF o.oid \in IndexOids /\ o.def # -1
+        THEN <<V(r.id, "violation", "", "go-to-definition on `index' leads to " \o ToString(o.def) \o at)>> ELSE <<>>)
+  \o (IF occ.def /\ (SeqSet(o.refsT) \cup SeqSet(o.refsF) \cup SeqSet(o.hl)) \cap IndexOids # {}
+        THEN <<V(r.id, "violation", "", "references/highlights list an `index' of a loop body: " \o ToString((SeqSet(o.refsT) \cup SeqSet(o.hl)) \cap IndexOids) \o at)>> ELSE <<>>)
   \o (IF occ.def /\ d # NoNode THEN Row(r, "references (with declaration)", at, SeqSet(o.refsT) \ U, Refs(P, d, TRUE), Explain(r, P, occ, ord, d, SeqSet(o.refsT) \ U, Refs(P, d, TRUE)))
                       \o Row(r, "references (without declaration)", at, SeqSet(o.refsF) \ U, Refs(P, d, FALSE), Explain(r, P, occ, ord, d, SeqSet(o.refsF) \ U, Refs(P, d, FALSE)))
                       \o Row(r, "references vs inverse of observed go-to-definition", at, SeqSet(o.refsF) \ ({WholeFile} \cup U), obsUses \ U, Explain(r, P, occ, ord, d, SeqSet(o.refsF) \ ({WholeFile} \cup U), obsUses \ U))
